@@ -6,3 +6,4 @@ export CARGO_NET_OFFLINE=true
 python3 tools/extract.py >/dev/null
 (cd lean && lake build MVoro driver)
 (cd harness && cargo build --offline --no-default-features --features ibig,rayon --target-dir target/ibig_rayon)
+(cd harness && cargo build --offline --release --no-default-features --features ibig,rayon --target-dir target/ibig_rayon)
